@@ -233,3 +233,55 @@ func VerifC03_PutMany() {
 	rt.Assert(put(nil) == nil, "putmany/finished")
 	rt.Reach("putmany-end")
 }
+
+// ---- cached interfaces: a record that becomes protected after it entered
+// the interface's cache is still refused ----
+
+func VerifC03_CachedInterface() {
+	rt.NoTimers()
+	rt.SchedYieldOnly(true)
+	c := c03Setup(false)
+	privileged := NewInterface(&Options{Local: true, Internal: true})
+	stored := newRec("a/k", 5)
+	rt.Assert(privileged.Put(stored) == nil, "setup/privileged-put")
+	local, internal := rt.Bool("local"), rt.Bool("internal")
+	acting := NewInterface(&Options{Local: local, Internal: internal, CacheSize: 4})
+	// first access: unprotected record, enters the cache
+	got, err := acting.Get("t:a/k")
+	rt.Assert(err == nil && got == record.Record(stored), "cached/first-get-permitted")
+	// the record becomes protected (through the privileged interface)
+	secret, jewel := rt.Bool("secret"), rt.Bool("crownjewel")
+	if secret {
+		rt.Assert(privileged.MakeSecret("t:a/k") == nil, "cached/make-secret")
+	}
+	if jewel {
+		rt.Assert(privileged.MakeCrownJewel("t:a/k") == nil, "cached/make-crownjewel")
+	}
+	denied := rt.Any(rt.All(secret, !internal), rt.All(jewel, !local))
+	before := snap(c, "a/k")
+	switch rt.Choice("op", 6) {
+	case 0:
+		got, err = acting.Get("t:a/k")
+		if denied {
+			rt.Assert(got == nil, "cached/denied-no-record-returned")
+		}
+	case 1:
+		err = acting.Delete("t:a/k")
+	case 2:
+		err = acting.SetAbsoluteExpiry("t:a/k", 1)
+	case 3:
+		err = acting.MakeSecret("t:a/k")
+	case 4:
+		err = acting.MakeCrownJewel("t:a/k")
+	case 5:
+		err = acting.SetRelativateExpiry("t:a/k", 1)
+	}
+	if denied {
+		rt.Assert(errors.Is(err, ErrPermissionDenied), "cached/permission-denied-reported")
+		sameSnap(before, snap(c, "a/k"), "cached")
+		rt.Reach("cached-denied")
+	} else {
+		rt.Assert(err == nil, "cached/permitted-operation-succeeds")
+		rt.Reach("cached-permitted")
+	}
+}
